@@ -106,7 +106,8 @@ impl Lay {
         if grow {
             let ns = size + rng.range(1, 2) as u32;
             l.k = l.base2k * (ns - 1) + rng.range(1, l.base2k as u64) as u32;
-            if rng.chance(300) {
+            // ScalarZnx has no limbs: its capacity only differs through the column count
+            if rng.chance(700) {
                 l.cols += 1;
                 l.rows += 1;
             }
@@ -116,7 +117,7 @@ impl Lay {
             l.k = l.base2k * (ns - 1) + rng.range(1, l.base2k as u64) as u32;
             l.dsize = l.dsize.min(ns.saturating_sub(1)).max(1);
             l.dnum = l.dnum.min(ns / l.dsize).max(1);
-            if rng.chance(300) && l.cols > 1 {
+            if rng.chance(700) && l.cols > 1 {
                 l.cols -= 1;
             }
         }
